@@ -7,14 +7,17 @@ def q2(name, fn, desc, **kw):
     return Query(name, S, fn, unwind=kw.pop("unwind", 140), timeout=kw.pop("timeout", 1500), mem_gb=kw.pop("mem_gb", 8), desc=desc,
                  instrument=[["--nondet-static"]], **kw)
 QUERIES = [
-    q2("two_ctx_ecdsa_sign", "harness_ecdsa_sign", "ecdsa_sign (default RFC 6979 nonce, with/without extra data): same signature bytes and return value under two arbitrary contexts, arbitrary statics", unwindset=["secp256k1_ecdsa_sign_inner.0:3", "nonce_function_rfc6979_impl.0:3"], bounds="first nonce attempt (compression-call cap 24 per run)"),
+    q2("two_ctx_ecdsa_sign_nd0", "harness_ecdsa_sign", "ecdsa_sign (default RFC 6979 nonce, extra data present): same signature bytes and return value under two arbitrary contexts, arbitrary statics", defs=["NDATA_NULL=0"], unwindset=["secp256k1_ecdsa_sign_inner.0:3", "nonce_function_rfc6979_impl.0:3"], bounds="first nonce attempt (compression-call cap 24 per run)", mem_gb=24, timeout=2400),
+    q2("two_ctx_ecdsa_sign_nd1", "harness_ecdsa_sign", "ecdsa_sign (default RFC 6979 nonce, no extra data): same signature bytes and return value", defs=["NDATA_NULL=1"], unwindset=["secp256k1_ecdsa_sign_inner.0:3", "nonce_function_rfc6979_impl.0:3"], bounds="first nonce attempt (compression-call cap 24 per run)", mem_gb=24, timeout=2400),
     q2("two_ctx_ecdsa_verify", "harness_ecdsa_verify", "ecdsa_verify: same verdict under two arbitrary contexts"),
     q2("two_ctx_schnorr_sign", "harness_schnorr_sign", "schnorrsig_sign32 (aux NULL / present): same bytes"),
     q2("two_ctx_schnorr_verify", "harness_schnorr_verify", "schnorrsig_verify: same verdict"),
     q2("two_ctx_keygen", "harness_keygen", "ec_pubkey_create / keypair_create: same objects"),
     q2("two_ctx_tweaks", "harness_tweaks", "pubkey_tweak_add / tweak_mul / seckey_tweak_add: same outputs"),
     q2("two_ctx_ecdh", "harness_ecdh", "ecdh (default hash): same shared secret"),
-    q2("two_ctx_codecs", "harness_codecs", "DER serialize / parse, pubkey serialize: same bytes, no dependence on initial contents of any static (scratch arrays made static would be read before written)"),
+    q2("two_ctx_der_serialize", "harness_der_serialize", "DER serialize: same bytes/length, no dependence on initial contents of any static (scratch arrays made static would be read before written)"),
+    q2("two_ctx_der_parse", "harness_der_parse", "DER parse (inputs up to 24 bytes): same object", bounds="input length <= 24"),
+    q2("two_ctx_pubkey_serialize", "harness_pubkey_serialize", "pubkey serialize (33/65): same bytes"),
     q2("two_ctx_pedersen", "harness_pedersen", "pedersen_commit: same commitment"),
     q2("two_ctx_musig_partial_sign", "harness_musig_sign", "musig_partial_sign: same partial signature"),
     q2("static_ctx", "harness_static_ctx", "static-context copies: verify gives the same result; key generation / signing / randomize report exactly one illegal callback and fail"),
@@ -54,8 +57,14 @@ def _statics(q, res):
             loc = json.dumps(sy.get("location", {}))
             if REPO not in loc and "/src/" not in loc:
                 continue
-            const = "#constant" in json.dumps(t.get("namedSub", {}))[:400] and t.get("namedSub", {}).get("#constant", {}).get("id") == "1"
-            if not const:
+            def is_const(ty):
+                ns = ty.get("namedSub", {})
+                if ns.get("#constant", {}).get("id") == "1":
+                    return True
+                if ty.get("id") == "array" and ty.get("sub"):
+                    return is_const(ty["sub"][0])
+                return False
+            if not is_const(t):
                 mut.append(name)
         mut = sorted(mut)
         allowed = ["secp256k1_selftest_sha256::1::input63"]   # a never-assigned pointer to a string literal (checked below)
@@ -78,6 +87,8 @@ QUERIES.append(Query("no_mutable_statics", "", "", kind="py", pyfunc=_statics, d
 for qq in QUERIES:
     if qq.instrument:
         qq.instrument = [["--nondet-static"] + EXCL]
+    if qq.kind == "cbmc":
+        qq.unreachable = ["secp256k1_ecmult_strauss_batch", "secp256k1_ecmult_pippenger_batch"]   # 8-argument functions CBMC lists as candidates for nonce function pointers
 LEVEL_TEXT = ("2-safety model checking of the real API code: every family is symbolically executed twice on the same arguments with two independent arbitrary contexts and arbitrary initial contents of all mutable statics; "
               "return values, output bytes and callback counts are proved equal and the context objects unchanged; the blinding invariant is proved inductive (one step of ecmult_gen_blind from an arbitrary state).")
 ASSUMPTIONS = ["multiplicative kernels and SHA-256 compression are uninterpreted FUNCTIONS of their operand values; gn*G is a function of gn only -- i.e. ecmult_gen is correct under the blinding invariant, which blind_step proves inductive and whose use inside ecmult_gen is the group law (C05, not encodable)",
